@@ -155,9 +155,6 @@ PROPS["C19"] = e1("TestC19", "cases drawn by rapid (GenC19): three candidate roo
                   "4-30 ops: mkdir one level (followed by sync), rename of an inner directory within its tree (followed by sync; in 35% of cases inside bursts instead, a third of those twice in a row on the same directory), rmdir, file create/write/chmod/unlink/move at any depth in bursts (25% plugged), "
                   "Remove of one of several roots, a root removed and added again with events of its tree pending; 15% of cases are long (30-70 ops) and move-heavy. "
                   "Oracle: shadow watch on every covered directory + the harness's own true-path bookkeeping. non-trivial = an inner directory rename or a root removal happened and >=2 events were delivered; distinct = skeleton")
-_parts("C19", dict(pkg="props", test="TestC19RenameRace", single=True))
-PROPS["C19"]["rule"] += ("; plus a rename race: four goroutines create uniquely named files inside a covered directory while it is renamed back and forth 1500 (quick) / 12000 (thorough) times; "
-                         "every file must be reported by exactly one Create carrying its base name (the path is not judged there: it depends on how far the reader has got)")
 MANIFEST_TEXT["C19"] = _e1("Exploration of the unreleased recursive mode (enabled through the verif hook): expected Name = root spelling + true current relative path, kept by the harness through renames; coverage of new directories from their Create on; Remove(root) silences exactly that tree. mkdir -p bursts, cross-boundary moves and root renames are excluded as in the property.")
 
 
@@ -218,6 +215,9 @@ PROPS["C11"]["rule"] += ("; plus threaded mode: 2-8 goroutines each moving its o
 _parts("C04", dict(pkg="props", test="TestC04Exhaustive", enumerated=True))
 PROPS["C04"]["rule"] += ("; plus bounded-exhaustive enumeration: all sequences up to length 2 (quick) / 3 (thorough, split over the shards) over an alphabet of 28 symbols (Add and Remove of file, dir, symlink to each, hard link, second file, "
                          "missing path, path through a file, symlink loop, 300-byte name; 8 filesystem mutations), WatchList after every step, spelling chosen per occurrence from 7 forms, final probe for duplicate events")
+_parts("C19", dict(pkg="props", test="TestC19RenameRace", single=True))
+PROPS["C19"]["rule"] += ("; plus a rename race: four goroutines create uniquely named files inside a covered directory while it is renamed back and forth 1500 (quick) / 12000 (thorough) times; "
+                         "every file must be reported by exactly one Create carrying its base name (the path is not judged there: it depends on how far the reader has got)")
 _parts("C12", dict(pkg="props", test="TestC12Soak", single=True))
 PROPS["C12"]["rule"] += "; plus a soak of 150 (quick) / 2000 (thorough) add/hard-link/delete/recreate/re-add/remove cycles on one Watcher (every fifth: the path stays listed while it is replaced and re-added three times in a row) with the kernel-mark comparison after every cycle"
 
